@@ -844,5 +844,36 @@ SEMANTIC_MSG = re.compile(r'(unknown annotation|unexpected annotation|annotation
                           r'option|annotation option "[^"]*" needs a value|cannot have both)')
 
 
+DEPRECATED_TAG_FORMS = [('Attributes', '(a b)'), ('Get value func', 'f'), ('Ref func', 'f'), ('Rename to', 'other'),
+                        ('Set value func', 'f'), ('Transfer', 'none'), ('Type', 'utf8'), ('Unref func', 'f'),
+                        ('Value', '5'), ('Virtual', 'slot')]
+
+
+def deprecated_tag_blocks():
+    """Syntactically ordinary blocks using a deprecated tag-style annotation with NO parameter or
+    Returns/Since tag before it: (a) directly after the identifier line, (b) after the description; followed by
+    nothing / an empty line / two / a text line / a @param line / another tag.
+    -> [(text, {'tag_line': i, 'offending': [i, ..], 'params': [..], 'tags': [..]})]  (0-based line indexes)"""
+    followers = [('none', []), ('empty', [' *']), ('empty2', [' *', ' *']), ('text', [' * more text']),
+                 ('param', [' * @p: a value']), ('since', [' * Since: 2.0']), ('returns', [' * Returns: a result']),
+                 ('empty+text', [' *', ' * more text']), ('empty+since', [' *', ' * Since: 2.0'])]
+    out = []
+    for tag, val in DEPRECATED_TAG_FORMS:
+        for place in ('a', 'b'):
+            for fname, flines in followers:
+                head = ['/**', ' * foo_bar:']
+                if place == 'b':
+                    head += [' *', ' * Does things.', ' *']
+                lines = head + [' * %s: %s' % (tag, val)] + flines + [' */']
+                ti = len(head)
+                off = [ti]
+                if 'param' in fname:
+                    off.append(ti + 1)          # a parameter after the description / a tag is itself misplaced
+                out.append(('\n'.join(lines), {'tag_line': ti, 'offending': off,
+                                               'params': ['p'] if 'param' in fname else [],
+                                               'tags': [t for t in ('since', 'returns') if t in fname]}))
+    return out
+
+
 def split_lines(text):
     return _LINE_SPLIT.split(text)
